@@ -84,6 +84,8 @@ def run_history(world, spec, hist, store_kind, oracles, sigtab=None, opts=None, 
                         probs.append(("C09", f"C09|wrong_error|{real.exc}|{spec['key']}|{entry}", _what(spec, hist, si, f"the evaluation {why}: raised {real.exc} ({str(real.excobj)[:90]}) instead of a DDS error")))
                     if real.status != "ok" and must_reject and real.log:
                         probs.append(("C09", f"C09|ran_before_rejecting|{spec['key']}|{entry}", _what(spec, hist, si, f"user functions {real.log[:4]} ran before the rejection")))
+                elif ref.status == "ok" and entry in spec.get("may_reject", ()) and real.status == "dds":
+                    pass  # refusing is one of the two acceptable answers here; what must not happen is checked by the steps that follow
                 elif ref.status == "ok":
                     if real.status == "ok":
                         if real.value != ref.value:
